@@ -976,7 +976,7 @@ def run_v2vdt_case(ctx, i, reqs, pending):
                      site='v2v/dtype-false-failure')
         else:
             o = np.asarray(out)
-            got = [[F(int(v)) if o.dtype.kind in 'iu' else F(float(v)) for v in row] for row in o.reshape(-1, 3)]
+            got = _as_fracs(out)
             if got != want:
                 ctx.fail(case, {'what': f'index mapping differs from mapping through physical space (index dtype {dt}, result dtype {o.dtype})',
                                 'indices': [[str(v) for v in x] for x in xs], 'got': [[str(v) for v in g] for g in got],
@@ -986,8 +986,7 @@ def run_v2vdt_case(ctx, i, reqs, pending):
             elif not rounded and o.dtype.kind != 'f':
                 ctx.fail(case, f'unrounded output has non-floating dtype {o.dtype}', site='v2v/dtype-kind')
         if st == 'ok':
-            o = np.asarray(out)
-            impl = ('ok', [[F(int(v)) if o.dtype.kind in 'iu' else F(float(v)) for v in row] for row in o.reshape(-1, 3)])
+            impl = ('ok', _as_fracs(out))
         else:
             impl = ('err', _err_kind(out))
         reqs.append(('v2v', {'from': [rat(v) for v in affine12(a)], 'to': [rat(v) for v in affine12(b)], 'shape': b['shape'],
@@ -1029,8 +1028,11 @@ def _expect_v2v(ys, rounded, dt):
 
 
 def _as_fracs(out):
+    """exact values of a returned index array (non-finite entries as text, so that they compare unequal to everything)"""
     o = np.asarray(out)
-    return [[F(int(v)) if o.dtype.kind in 'iu' else F(float(v)) for v in row] for row in o.reshape(-1, 3)]
+    if o.dtype.kind in 'iu':
+        return [[F(int(v)) for v in row] for row in o.reshape(-1, 3)]
+    return [[F(float(v)) if np.isfinite(v) else repr(float(v)) for v in row] for row in o.reshape(-1, 3)]
 
 
 def _state(obj):
@@ -1246,8 +1248,8 @@ def _resolve(ctx, reqs, pending):
             elif impl[0] == 'ok':
                 m = [[F(v) for v in row] for row in ans['ok']]
                 for mr, ir in zip(m, impl[1]):
-                    if any(abs(x - y) > extra * max(1, abs(x)) for x, y in zip(mr, ir)):
-                        ctx.disagree('L0', case, [float(v) for v in ir], [float(v) for v in mr], 'index mapping')
+                    if any(isinstance(y, str) or abs(x - y) > extra * max(1, abs(x)) for x, y in zip(mr, ir)):
+                        ctx.disagree('L0', case, [str(v) for v in ir], [float(v) for v in mr], 'index mapping')
                         break
         elif kind == 'plan':
             check_plan(ctx, case, ans)
